@@ -393,6 +393,143 @@ func runMeth(js string) string {
 	return subj + " @@ " + ref + " @@ " + twin
 }
 
+
+// ---------------------------------------------------------------- Go []interface{} wrapper with spare capacity
+
+type gsCase struct {
+	Cap  int             `json:"cap"`  // capacity of the backing array; the spare part holds sentinel values
+	Init []interface{}   `json:"init"` // initial contents (len <= cap)
+	Ptr  bool            `json:"ptr"`  // wrap *[]interface{} (Go side sees growth) or []interface{}
+	Ops  [][]interface{} `json:"ops"`  // ["set",i,v] ["len",n] ["push",v] ["pop"] ["gotrunc",n] (Go-side reslice, ptr only)
+}
+
+const gsLib = `
+function canon(v){if(v===undefined||v===null)return "-";return (typeof v)+":"+String(v)}
+function obs(o,sent){var out=[],n=o.length;for(var i=0;i<n;i++)out.push(canon(o[i]));
+ var f=[];for(var j=0;j<sent.length;j++){f.push(Array.prototype.indexOf.call(o,sent[j]));f.push(Array.prototype.includes.call(o,sent[j])?1:0);f.push(Array.prototype.lastIndexOf.call(o,sent[j]))}
+ return n+"["+out.join(",")+"]"+f.join("")+"|"+Array.prototype.join.call(o,"/")}
+`
+
+func jsLit(v interface{}) string {
+	b, _ := json.Marshal(v)
+	return string(b)
+}
+
+func goCanon(sl []interface{}) string {
+	parts := make([]string, len(sl))
+	for i, x := range sl {
+		switch y := x.(type) {
+		case nil:
+			parts[i] = "-"
+		case string:
+			parts[i] = "string:" + y
+		case int64:
+			parts[i] = "number:" + strconv.FormatInt(y, 10)
+		case float64:
+			parts[i] = "number:" + strconv.FormatFloat(y, 'f', -1, 64)
+		default:
+			parts[i] = fmt.Sprintf("%T:%v", x, x)
+		}
+	}
+	return fmt.Sprintf("%d[%s]", len(sl), strings.Join(parts, ","))
+}
+
+// runGS: the same script operations on a Go slice wrapper (whose backing array has stale non-nil
+// values in its spare capacity) and on a real Array twin; prints both observation traces and the
+// final Go-side value.  New slots must be empty (null from script, nil in Go), never stale.
+func runGS(js string) string {
+	var c gsCase
+	if err := json.Unmarshal([]byte(js), &c); err != nil {
+		return "BADOP " + err.Error()
+	}
+	if len(c.Init) > c.Cap {
+		return "BADOP init longer than cap"
+	}
+	vm := newVM()
+	if _, err := vm.RunString(gsLib); err != nil {
+		return "ERR lib " + err.Error()
+	}
+	backing := make([]interface{}, c.Cap)
+	sent := make([]string, c.Cap)
+	for i := range backing {
+		sent[i] = "SENTINEL" + strconv.Itoa(i)
+		backing[i] = sent[i]
+	}
+	for i, v := range c.Init {
+		if f, ok := v.(float64); ok {
+			v = int64(f)
+		}
+		backing[i] = v
+	}
+	sl := backing[:len(c.Init)]
+	if c.Ptr {
+		vm.Set("s", &sl)
+	} else {
+		vm.Set("s", sl)
+	}
+	vm.Set("SENT", sent)
+	if _, err := vm.RunString("var t=" + jsLit(c.Init) + ";var sent=[];for(var i=0;i<SENT.length;i++)sent.push(SENT[i]);"); err != nil {
+		return "ERR init " + common.OneLine(err.Error())
+	}
+	var ts, tt []string
+	observe := func() string {
+		a, err := vm.RunString("obs(s,sent)")
+		if err != nil {
+			return "ERR obs " + common.OneLine(err.Error())
+		}
+		b, err := vm.RunString("obs(t,sent)")
+		if err != nil {
+			return "ERR obs " + common.OneLine(err.Error())
+		}
+		ts = append(ts, a.String())
+		tt = append(tt, b.String())
+		return ""
+	}
+	if e := observe(); e != "" {
+		return e
+	}
+	for _, op := range c.Ops {
+		kind, _ := op[0].(string)
+		var src string
+		switch kind {
+		case "set":
+			src = fmt.Sprintf("s[%v]=%s;t[%v]=%s;", op[1], jsLit(op[2]), op[1], jsLit(op[2]))
+		case "len":
+			src = fmt.Sprintf("s.length=%v;t.length=%v;", op[1], op[1])
+		case "push":
+			src = fmt.Sprintf("Array.prototype.push.call(s,%s);t.push(%s);", jsLit(op[1]), jsLit(op[1]))
+		case "pop":
+			src = "Array.prototype.pop.call(s);t.pop();"
+		case "gotrunc":
+			n := int(op[1].(float64))
+			if c.Ptr && n <= len(sl) {
+				sl = sl[:n] // Go-side truncation: the dropped values stay in the spare capacity
+				src = fmt.Sprintf("t.length=%d;", n)
+			}
+		default:
+			return "BADOP " + kind
+		}
+		if src != "" {
+			if _, err := vm.RunString(src); err != nil {
+				return "ERR op " + kind + " " + common.OneLine(err.Error())
+			}
+		}
+		if e := observe(); e != "" {
+			return e
+		}
+	}
+	// the Go value afterwards
+	var goFinal string
+	if c.Ptr {
+		goFinal = goCanon(sl)
+	} else if ex, ok := vm.Get("s").Export().([]interface{}); ok {
+		goFinal = goCanon(ex)
+	} else {
+		goFinal = fmt.Sprintf("?%T", vm.Get("s").Export())
+	}
+	return strings.Join(ts, ";") + " @@ " + strings.Join(tt, ";") + " @@ " + goFinal
+}
+
 func main() {
 	common.Loop(func(line string) string {
 		switch {
@@ -402,6 +539,8 @@ func main() {
 			return runSort(line[6:])
 		case strings.HasPrefix(line, "meth "):
 			return runMeth(line[5:])
+		case strings.HasPrefix(line, "gs "):
+			return runGS(line[3:])
 		case strings.HasPrefix(line, "js "):
 			vm := newVM()
 			v, err := vm.RunString(line[3:])
